@@ -579,6 +579,12 @@ pub fn gen_c01(out: &mut Out, prop: u32, tier: &str, rng: &mut Rng) {
         for i in 0..=c + 1 { v.push(Op::InsertCol(i, Script::honest(ids(r.max(1) as usize, 800)))); }
         v.push(Op::PushRow(Script::honest(ids(c as usize + 1, 900))));
         v.push(Op::PushCol(Script::honest(vec![])));
+        // calls rejected with a panic because the iterator argument is bad: it ends before
+        // the length it reported, or it panics part-way
+        { let mut s = Script::honest(ids((c.max(1) - 1) as usize, 750)); s.claimed = c.max(1); v.push(Op::InsertRow(0, s)); }
+        { let mut s = Script::honest(ids(c.max(1) as usize, 760)); s.panic_at = Some(c.max(1) / 2); v.push(Op::InsertRow(r, s)); }
+        { let mut s = Script::honest(ids((r.max(1) - 1) as usize, 770)); s.claimed = r.max(1); v.push(Op::InsertCol(0, s)); }
+        { let mut s = Script::honest(ids(r.max(1) as usize, 780)); s.panic_at = Some(r.max(1) / 2); v.push(Op::InsertCol(c, s)); }
         for i in 0..=r { v.push(Op::RemoveRow(i, vec![DStep::Front, DStep::Len], DEnd::Drop)); }
         for i in 0..=c { v.push(Op::RemoveCol(i, vec![DStep::Back], DEnd::Drop)); }
         v.push(Op::PopRow(vec![], DEnd::Drop));
@@ -612,7 +618,8 @@ pub fn gen_c01(out: &mut Out, prop: u32, tier: &str, rng: &mut Rng) {
     let (n, maxlen) = if tier == "quick" { (3000, 14) } else { (60000, 40) };
     for i in 0..n {
         let len = 1 + rng.below(maxlen) as usize;
-        let mut ops = rand_history(rng, len, true, false);
+        // one history in four also passes bad iterators (wrong reported length, early end, panic)
+        let mut ops = rand_history(rng, len, i % 4 != 3, false);
         ops.push(Op::DropArr);
         emit(out, prop, track_modes[i % track_modes.len()], &ops);
     }
